@@ -16,7 +16,7 @@ for f in sorted(glob.glob(ROOT + '/seeded/*/meta.json')):
 txt = '''
 ### 13.5 Seeded changes (independent sub-agents, property text + scratch worktree only) and what catches them
 
-%d changes in nine rounds (the fifth asked for slips that need a non-default build configuration, history or a boundary value; the sixth for well-meant optimisations, portability clean-ups, error-handling changes and edits in neighbouring helpers; the seventh for slips in tables and constants, in the second or later of something, under unusual but legal set-ups such as NULL callbacks, and in comparison operators; the eighth for the hardest slips the agent could think of: re-entrant callbacks, several contexts, the largest legal sizes, types narrowed by one step, C89 builds; the ninth for slips a reviewer would approve: non-default but legal API use, module boundaries, type width and signedness, order of statements, state that survives), each confirmed by `run/seedcheck.py`: applies to /repo HEAD, the unedited 71-test suite
+%d changes in ten rounds (the fifth asked for slips that need a non-default build configuration, history or a boundary value; the sixth for well-meant optimisations, portability clean-ups, error-handling changes and edits in neighbouring helpers; the seventh for slips in tables and constants, in the second or later of something, under unusual but legal set-ups such as NULL callbacks, and in comparison operators; the eighth for the hardest slips the agent could think of: re-entrant callbacks, several contexts, the largest legal sizes, types narrowed by one step, C89 builds; the ninth for slips a reviewer would approve: non-default but legal API use, module boundaries, type width and signedness, order of statements, state that survives; the tenth the same for the properties left out of the ninth, plus supported non-default builds), each confirmed by `run/seedcheck.py`: applies to /repo HEAD, the unedited 71-test suite
 still passes, the agent's demonstration fails with the change and passes without. The registered quick check of the
 property was then run with `VERIF_REPO=<scratch copy with the change>`. Changes that were missed at first led to the
 strengthening named in the last column (scenario families, alphabets or oracle clauses were added; nothing was
